@@ -101,7 +101,7 @@ fn run_case(cx: &CaseCtx, rep: &mut Report) {
 	let mut sets = gen_vector_sets(&mut rng, n, &go, mixed, &enc);
 	if cx.tier.is_tiny() {
 		for s in sets.iter_mut() {
-			s.truncate(3);
+			s.truncate(2);
 		}
 	}
 	rep.count("tiles_with_tables_beyond_16384_entries", sets.iter().map(|s| s.layers.values().filter(|l| imvt::has_wide_table(l)).count() as u64).sum());
